@@ -120,10 +120,12 @@ TReturn ==
                       \cup (IF (Eff(opts).url /\ o.urlfield # "same") \/ (~Eff(opts).url /\ o.urlfield # "empty")
                             THEN {"C13_ResultURL"} ELSE {})
                       \cup (IF o.wc # wc THEN {"C20_ResultWordCount"} ELSE {})
+                      \* C09: with only text blocks retained and no title, WordCount is the number of words of the text
+                      \cup (IF o.onlytxt /\ o.ntitle = 0 /\ o.wc # o.txtwc THEN {"C09_WordCountMatchesText"} ELSE {})
            b2 == (IF ~o.treesame THEN {"C10_TreeUntouched"} ELSE {})
                  \cup (IF ~o.optssame THEN {"C10_OptionsUntouched"} ELSE {})
            \* ---- group rules: most specific first
-           v  == <<o.err, o.core, o.pag>>
+           v  == <<o.err, o.core, o.pag, o.urldig>>
            b3 == IF Seen(KExact) /\ ValOf(KExact) # v THEN {"C11_RepeatedCallsAgree"}
                  ELSE IF Seen(KOpts) /\ ValOf(KOpts) # v THEN {"C11_EntryPointsAgree"}
                  ELSE IF ~isErr /\ Seen(KCore) /\ ValOf(KCore) # o.core THEN {"C13_OptionsDontChangeCore"}
